@@ -111,6 +111,12 @@ func run(p *program, st *stats) (fs []finding) {
 			}
 		}
 		st.count("op_" + o.K)
+		if st != nil && st.resolved != nil {
+			st.resolvedView[i] = o.View % len(views)
+			if o.Pick > 0 {
+				st.resolved[i] = key
+			}
+		}
 		switch o.K {
 		case "set":
 			if pk, pm := guard(func() { v.impl.Set(key, o.Val) }); pk != "" {
@@ -165,6 +171,7 @@ func run(p *program, st *stats) (fs []finding) {
 		case "range", "iterate":
 			pre := v.model.FullPrefix()
 			c := &listCheck{limit: o.Limit, rev: o.Rev, classify: classifier(v)}
+			c.stagedDels = delsIn(func([]byte) bool { return true })
 			var got []kvmodel.KV
 			var name, what string
 			var pk, pm string
